@@ -85,9 +85,179 @@ pub struct Case {
     /// additional FileLogWriter "A" + recording writer next to the file (records go to {A,_Default})
     pub multi: bool,
     pub recs: Vec<Rc>,
+    /// Some: the case runs in a child process with this output (stdout, stderr, memory buffer,
+    /// or file + duplication to stderr/stdout)
+    #[serde(default)]
+    pub std_out: Option<StdKind>,
+}
+
+#[derive(Clone, Copy, Debug, Serialize, Deserialize, PartialEq, Eq)]
+pub enum StdKind {
+    Stdout,
+    Stderr,
+    Buffer,
+    FileDupErr,
+    FileDupOut,
 }
 
 pub struct P;
+
+/// pure: the renderings expected for the records of `case`, given the virtual time `base` at
+/// which the first record reads the clock
+fn expected_segs(case: &Case, base: i64, thread: &str, needs_ts: bool) -> Vec<Seg> {
+    let step: i64 = if case.tick { 1_000 } else { 0 };
+    let mut t = base;
+    let mut segs = Vec::new();
+    let seg_of = |r: &Rc, text: &str, t: i64| -> Seg {
+        let ts = ns_to_local(t).format(TS_FMT).to_string();
+        if case.fmt == Fmt::Json {
+            Seg::Json { rc: r.clone(), text: text.to_string(), ts }
+        } else {
+            Seg::Exact(render(case.fmt, r, text, &ts, thread).into_bytes())
+        }
+    };
+    for r in &case.recs {
+        let text = if r.inner.is_empty() { r.msg.clone() } else { format!("{}<R>", r.msg) };
+        let outer_t = t;
+        if needs_ts {
+            t += step;
+        }
+        for m in &r.inner {
+            let ir = Rc {
+                msg: m.clone(),
+                level: 3,
+                module: Some(module_path!().to_string()),
+                file: Some(file!().to_string()),
+                line: Some(INNER_LINE.load(std::sync::atomic::Ordering::SeqCst)),
+                kv: vec![],
+                inner: vec![],
+            };
+            segs.push(seg_of(&ir, m, t));
+            if needs_ts {
+                t += step;
+            }
+        }
+        segs.push(seg_of(r, &text, outer_t));
+    }
+    segs
+}
+
+fn inner_line_probe() {
+    // make INNER_LINE known without logging anything: format a Recursive with no inner record
+    // is not enough (the line is stored inside the loop), so log one inner record into nowhere
+    plug(None);
+    let _ = format!("{}", Recursive { inner: vec!["probe".into()] });
+}
+
+#[derive(Serialize, Deserialize)]
+struct ChildReport {
+    base: i64,
+    thread: String,
+    snapshot: Option<String>,
+}
+
+/// `flv child c20 <case>`
+pub fn child_main(file: &std::path::Path) -> ! {
+    let case: Case = crate::child::read_case(file);
+    let dir = file.parent().unwrap().join("childlogs");
+    install_switchboard();
+    h().set_time(Some(case.t0.to_ns()));
+    if case.tick {
+        h().set_tick(1_000);
+    }
+    let mode = match case.mode {
+        Mode::BufAndFlush(c, _) => Mode::BufDontFlush(c),
+        Mode::Async { pool, msg, .. } => Mode::Async { pool, msg, flush_ms: 0 },
+        m => m,
+    };
+    let l = Logger::with(LogSpecification::trace())
+        .format(case.fmt.func())
+        .write_mode(mode.to_flexi())
+        .error_channel(ErrorChannel::DevNull)
+        .panic_if_error_channel_is_broken(false);
+    let l = match case.std_out.unwrap_or(StdKind::Stdout) {
+        StdKind::Stdout => l.log_to_stdout(),
+        StdKind::Stderr => l.log_to_stderr(),
+        StdKind::Buffer => l.log_to_buffer(10_000_000, Some(case.fmt.func())),
+        StdKind::FileDupErr => l.log_to_file(FileSpec::default().directory(&dir).basename("out").suppress_timestamp()).duplicate_to_stderr(flexi_logger::Duplicate::All),
+        StdKind::FileDupOut => l.log_to_file(FileSpec::default().directory(&dir).basename("out").suppress_timestamp()).duplicate_to_stdout(flexi_logger::Duplicate::All),
+    };
+    let (log, handle) = match l.build() {
+        Ok(x) => x,
+        Err(e) => {
+            eprintln!("CHILD-ERROR {e:?}");
+            crate::child::exit_now(7)
+        }
+    };
+    let log: Arc<dyn log::Log> = Arc::from(log);
+    plug(Some(log.clone()));
+    let base = h().time().unwrap();
+    for r in &case.recs {
+        log_rec(&*log, r, "flv");
+    }
+    let mut snapshot = None;
+    if case.std_out == Some(StdKind::Buffer) {
+        let mut snap = flexi_logger::Snapshot::new();
+        let _ = handle.update_snapshot(&mut snap);
+        snapshot = Some(snap.text);
+    }
+    plug(None);
+    handle.shutdown();
+    let rep = ChildReport { base, thread: std::thread::current().name().unwrap_or("<unnamed>").to_string(), snapshot };
+    let _ = std::fs::write(file.parent().unwrap().join("report.json"), serde_json::to_vec(&rep).unwrap());
+    crate::child::exit_now(0)
+}
+
+fn run_std(case: &Case, kind: StdKind) -> Outcome {
+    let mut out = Outcome::ok();
+    out.class(&format!("out:{kind:?}"));
+    out.class(&format!("fmt:{:?}", case.fmt));
+    out.class(case.mode.label());
+    let sc = Scratch::new("c20c");
+    let cf = sc.sub("case.json");
+    crate::child::write_case(&cf, case);
+    inner_line_probe();
+    let co = crate::child::run_child("c20", &cf, &case.tz, std::time::Duration::from_secs(8));
+    let recursive = case.recs.iter().any(|r| !r.inner.is_empty());
+    if co.timed_out {
+        return Outcome::fail(
+            if recursive { "hang-on-recursive-logging" } else { "hang" },
+            format!("the child process did not finish within 8 s ({kind:?}, {:?}, recursive records: {recursive})", case.mode),
+        );
+    }
+    if co.code != Some(0) {
+        return Outcome::fail("child-failed", format!("exit {:?} signal {:?}: {}", co.code, co.signal, lossy(&co.stderr)));
+    }
+    let rep: ChildReport = match std::fs::read(sc.sub("report.json")).ok().and_then(|b| serde_json::from_slice(&b).ok()) {
+        Some(r) => r,
+        None => return Outcome::fail("child-failed", "no report"),
+    };
+    let needs_ts = case.fmt.has_ts();
+    let segs = expected_segs(case, rep.base, &rep.thread, needs_ts);
+    let r = match kind {
+        StdKind::Stdout => compare_stream(case, "stdout", &co.stdout, &segs, b"\n", &rep.thread),
+        StdKind::Stderr => compare_stream(case, "stderr", &co.stderr, &segs, b"\n", &rep.thread),
+        StdKind::Buffer => compare_stream(case, "buffer snapshot", rep.snapshot.clone().unwrap_or_default().as_bytes(), &segs, b"\n", &rep.thread),
+        StdKind::FileDupErr | StdKind::FileDupOut => {
+            let file = std::fs::read(sc.sub("childlogs/out.log")).unwrap_or_default();
+            compare_stream(case, "log file", &file, &segs, b"\n", &rep.thread).and_then(|()| {
+                let dupl = if kind == StdKind::FileDupErr { &co.stderr } else { &co.stdout };
+                compare_stream(case, "duplicate stream", dupl, &segs, b"\n", &rep.thread).map_err(|(s, m)| (format!("duplicate:{s}"), m))
+            })
+        }
+    };
+    if let Err((sig, msg)) = r {
+        out.set_fail(sig, msg);
+    }
+    if recursive {
+        out.class("recursive");
+    }
+    if case.tick {
+        out.class("ticking-clock");
+    }
+    out.nontrivial = recursive || matches!(kind, StdKind::FileDupErr | StdKind::FileDupOut);
+    out
+}
 
 const TS_FMT: &str = "%Y-%m-%d %H:%M:%S%.6f %:z";
 
@@ -335,12 +505,16 @@ impl Property for P {
             vinst_strat(),
             any::<bool>(),
             prop::bool::weighted(0.4),
+            prop::option::weighted(0.08, prop_oneof![Just(StdKind::Stdout), Just(StdKind::Stderr), Just(StdKind::Buffer), Just(StdKind::FileDupErr), Just(StdKind::FileDupOut)]),
         )
-            .prop_flat_map(|(fmt, crlf, mode, t0, tick, multi)| {
-                let allow_inner = !multi;
-                (Just((fmt, crlf, mode, t0, tick, multi)), prop::collection::vec(rc_strat(allow_inner), 1..8))
+            .prop_flat_map(|(fmt, crlf, mode, t0, tick, multi, std_out)| {
+                let dup = matches!(std_out, Some(StdKind::FileDupErr | StdKind::FileDupOut));
+                let multi = multi && std_out.is_none();
+                let crlf = crlf && std_out.is_none();
+                let allow_inner = !multi && !dup;
+                (Just((fmt, crlf, mode, t0, tick, multi, std_out)), prop::collection::vec(rc_strat(allow_inner), 1..8))
             })
-            .prop_map(|((fmt, crlf, mode, t0, tick, multi), recs)| Case {
+            .prop_map(|((fmt, crlf, mode, t0, tick, multi, std_out), recs)| Case {
                 tz: crate::vtime::tz_name(),
                 fmt,
                 crlf,
@@ -349,11 +523,15 @@ impl Property for P {
                 tick,
                 multi,
                 recs,
+                std_out,
             })
             .boxed()
     }
 
     fn run(case: &Case) -> Outcome {
+        if let Some(kind) = case.std_out {
+            return run_std(case, kind);
+        }
         let mut out = Outcome::ok();
         let sc = Scratch::new("c20");
         let dir = sc.sub("logs");
